@@ -351,7 +351,9 @@ def run_hist(case):
                           ('mods_same', 'a module dictionary (new module-level attribute)')):
             if not ob[fld]:
                 v.append({'key': 'C09:hist:modified:%s@%s' % (fld.replace('_same', ''), e), 'msg': '%s modified %s (history %r)' % (e, what, h)})
-        if ob['res'] != ref[ob['eff']]:
+        # (an effective option set outside the pre-computed table can only arise from an options dictionary that a
+        # solver modified: reported above)
+        if ob['eff'] in ref and ob['res'] != ref[ob['eff']]:
             v.append({'key': 'C09:hist:result-depends-on-history@%s' % e,
                       'msg': 'call %r after history %r gives %s, not the result of the same call made first in a fresh interpreter with '
                              'effective options %s' % (ob['ev'], h[:-1], ob['brief'], ob['eff'])})
@@ -466,6 +468,41 @@ def run_tolerances(case):
                 for v in O.viol[nv:]:
                     v['key'] = v['key'].replace('C09:', 'C09:tolerances:') + '@' + e
                     v['sub'] = {'instance': {k: inst[k] for k in ('c', 'G', 'h', 'dims', 'A', 'b')}, 'cfg': cfg}
+    # the same for the quadratic and the nonlinear entry points: tolerance sets in which the relative gap is met long
+    # before the tight feasibility tolerance (and the other way round) judged by the C03 / C04 certificate oracles
+    nlsets = [{'feastol': 1e-9, 'abstol': 1e-12, 'reltol': 0.5}, {'feastol': 1e-2, 'abstol': 1e-9, 'reltol': 1e-9}]
+    qinst = next((i for i in (qpsolve.planted_qp(d, 2, 1, case['seed'] + k) for k in range(8)) if i is not None), None)
+    if qinst is not None:
+        qinst['P'] = [[qinst['P'][i][j] + (1.0 if i == j else 0.0) for j in range(2)] for i in range(2)]
+        for e in ['coneqp'] + (['qp'] if not d['q'] and not d['s'] else []):
+            for o in nlsets:
+                cfg = {'entry': e, 'storage': 'dense', 'kkt': None, 'opts': o}
+                res, _ = qpsolve.call(qinst, cfg)
+                n += 1
+                nv = len(O.viol)
+                if not isinstance(res, Exception) and res.get('status') == 'optimal':
+                    qpsolve.check_optimal(O, qinst, res, cfg)
+                    nt += 1
+                for v in O.viol[nv:]:
+                    v['key'] = v['key'].replace('C09:', 'C09:tolerances:') + '@' + e
+                    v['sub'] = {'cfg': cfg}
+    for tag in ('acent2.1', 'expc2', 'lse.0.cp', 'lse.0.gp', 'quad2.0'):
+        pb = [p_ for p_ in nlsolve.base_problems(case['seed'] % 4) if p_['tag'] == tag][0]
+        if pb['entry'] != 'gp':
+            pb = nlsolve.with_cone(pb, d, case['seed'] % 4, 0)
+        elif d['q'] or d['s']:
+            continue
+        for o in nlsets:
+            cfg = {'opts': o}
+            res, rec = nlsolve.call(pb, cfg)
+            n += 1
+            nv = len(O.viol)
+            if not isinstance(res, Exception) and res.get('status') == 'optimal':
+                nlsolve.check_optimal(O, pb, res, cfg, rec)
+                nt += 1
+            for v in O.viol[nv:]:
+                v['key'] = v['key'].replace('C09:', 'C09:tolerances:') + '@' + pb['entry']
+                v['sub'] = {'problem': tag, 'cfg': cfg}
     return {'n': n, 'nontrivial': nt, 'viol': O.viol[:10], 'outcomes': outcomes, 'states': n, 'transitions': n, 'traces': n}
 
 
